@@ -341,6 +341,13 @@ func validLayouts() [][]string {
 		}
 	}
 	out = append(out, up, lo)
+	// header text that itself begins with (or contains) the marker character: the marker is the first byte of the line, once
+	var marked []string
+	for i, h := range []string{">>marked first record", ">id2>tail", ">>"} {
+		marked = append(marked, h)
+		marked = append(marked, rewrap(seqs[i], 100)...)
+	}
+	out = append(out, marked)
 	return out
 }
 
@@ -359,6 +366,8 @@ func C16(c *core.Ctx) {
 // checkReaders runs the layout families; prefix distinguishes the C18 rows from the C16 ones.
 func checkReaders(c *core.Ctx, tabs *Tables, prefix string, full bool, only ...string) {
 	nEval := 0
+	decisions := map[string]map[string]string{} // layout -> reader -> accepted / rejected
+	var decisionOrder []string
 	for _, rd := range fastaReaders {
 		if len(only) > 0 && !containsStr(only, rd.name) {
 			continue
@@ -505,6 +514,11 @@ func checkReaders(c *core.Ctx, tabs *Tables, prefix string, full bool, only ...s
 				bad = append(bad, fmt.Sprintf("%s: the reader indexes past the end of the line (%s): it panics instead of reading or rejecting the input", tc.name, res.crash))
 				continue
 			}
+			if decisions[tc.name] == nil {
+				decisions[tc.name] = map[string]string{}
+				decisionOrder = append(decisionOrder, tc.name)
+			}
+			decisions[tc.name][rd.name] = map[bool]string{true: "rejected", false: "read"}[res.err]
 			if !res.err {
 				// accepted: must equal the records with blank lines ignored
 				want, why := specRecords(tc.lines, rd.validate, true)
@@ -517,6 +531,23 @@ func checkReaders(c *core.Ctx, tabs *Tables, prefix string, full bool, only ...s
 		}
 		c.Ob(key+"/total-on-blank-lines-and-empty-headers", len(bad) == 0, pos, "%s", first(bad, 4))
 	}
+	// the readers agree with one another: a file one of them reads is read by all (a record file is handed to different
+	// readers depending on the option it is given with)
+	if full && len(only) == 0 {
+		var bad []string
+		for _, name := range decisionOrder {
+			byDecision := map[string][]string{}
+			for rdName, d := range decisions[name] {
+				byDecision[d] = append(byDecision[d], rdName)
+			}
+			if len(byDecision) > 1 {
+				sort.Strings(byDecision["read"])
+				sort.Strings(byDecision["rejected"])
+				bad = append(bad, fmt.Sprintf("%s: read by %v, rejected by %v", name, byDecision["read"], byDecision["rejected"]))
+			}
+		}
+		c.Ob(prefix+"D/readers-agree-on-blank-lines-and-empty-headers", len(bad) == 0, funcPos(c, "pkg/fastaio", "ReadEncodeAlignment"), "%s", first(bad, 4))
+	}
 	// findReference: same scanner loop, returns the named record
 	if len(only) == 0 || containsStr(only, "findReference") {
 		pos := funcPos(c, "pkg/variants", "findReference")
@@ -526,7 +557,8 @@ func checkReaders(c *core.Ctx, tabs *Tables, prefix string, full bool, only ...s
 			for li, lines := range validLayouts() {
 				nEval++
 				want, _ := specRecords(lines, true, false)
-				for _, id := range []string{"id1", "id2", "id3"} {
+				for _, wr := range want {
+					id := wr.ID
 					res := runReader(c, tabs, "pkg/variants", "findReference", lines, false, id)
 					if res.undecide != "" || res.crash != "" {
 						bad = append(bad, fmt.Sprintf("layout %d: %s%s", li, res.undecide, res.crash))
